@@ -394,28 +394,38 @@ def uop_tokens(op):
         return ["savexmm", str(op[1])]
     return ["mach", "1" if op[1] else "0"]
 
-def build_pe(funcs, uinfos, text_lo, text_bytes, xdata_rva=0x80000):
+def build_pe(funcs, uinfos, text_lo, text_bytes, xdata_rva=0x80000, rdata_ids=()):
     """funcs = [(begin, end, uinfo_id)] sorted by begin; uinfos = {id: uinfo dict}; chain refers to ids.
+    Unwind infos whose id is in rdata_ids are placed in .rdata, which ends exactly where .xdata begins.
     Returns (sections list for the B view, abstract tokens for the A view)."""
-    # lay out unwind infos in .xdata
     ids = sorted(uinfos)
-    rva = {}
-    pos = xdata_rva
-    blobs = {}
-    # two passes: sizes do not depend on the chain target's position
-    for i in ids:
+    rd = [i for i in ids if i in rdata_ids]
+    xd = [i for i in ids if i not in rdata_ids]
+    def size(i):
         u = uinfos[i]
-        b = enc_uinfo(u, (0, 0, 0) if u.get("chain") is not None else None)
-        rva[i] = pos
-        pos += (len(b) + 3) & ~3
-    xdata = bytearray(pos - xdata_rva)
+        return (len(enc_uinfo(u, (0, 0, 0) if u.get("chain") is not None else None)) + 3) & ~3
+    rlen = sum(size(i) for i in rd)
+    rdata_rva = xdata_rva - rlen
+    rva = {}
+    pos = rdata_rva
+    for i in rd:
+        rva[i] = pos; pos += size(i)
+    assert pos == xdata_rva
+    for i in xd:
+        rva[i] = pos; pos += size(i)
+    blob = bytearray(pos - rdata_rva)
     for i in ids:
         u = uinfos[i]
         ch = u.get("chain")
         b = enc_uinfo(u, (u.get("chain_begin", 0), u.get("chain_end", 0), rva[ch]) if ch is not None else None)
-        xdata[rva[i] - xdata_rva: rva[i] - xdata_rva + len(b)] = b
+        blob[rva[i] - rdata_rva: rva[i] - rdata_rva + len(b)] = b
+    rdata, xdata = bytes(blob[:rlen]), bytes(blob[rlen:])
     pdata = b"".join(struct.pack("<III", b, e, rva[u]) for (b, e, u) in funcs)
-    secs = [(".pdata", pdata, None), (".xdata", bytes(xdata), (xdata_rva, xdata_rva + len(xdata)))]
+    secs = [(".pdata", pdata, None)]
+    if rd:
+        secs.append((".rdata", rdata, (rdata_rva, rdata_rva + len(rdata))))
+    if xd or not rd:
+        secs.append((".xdata", xdata, (xdata_rva, xdata_rva + len(xdata))))
     if text_bytes is not None:
         secs.append((".text", bytes(text_bytes), (text_lo, text_lo + len(text_bytes))))
     a = ["pe", str(len(funcs))]
@@ -434,8 +444,8 @@ def build_pe(funcs, uinfos, text_lo, text_bytes, xdata_rva=0x80000):
         a += ["notext"]
     return secs, a, rva
 
-def module_pe(script, mid, start, end, base_avma, base_svma, funcs, uinfos, text_lo, text_bytes, xdata_rva=0x80000):
-    secs, a, rva = build_pe(funcs, uinfos, text_lo, text_bytes, xdata_rva)
+def module_pe(script, mid, start, end, base_avma, base_svma, funcs, uinfos, text_lo, text_bytes, xdata_rva=0x80000, rdata_ids=()):
+    secs, a, rva = build_pe(funcs, uinfos, text_lo, text_bytes, xdata_rva, rdata_ids)
     b = [str(len(secs))]
     for name, data, rngs in secs:
         b += [name, hexs(data)] + ([hx(base_svma + rngs[0]), hx(base_svma + rngs[1])] if rngs else ["-", "-"])
